@@ -1,5 +1,4 @@
 use crate::delta::{DiffType, Source, State, StateMachine};
-use crate::utils::path::relativize_path_maybe;
 
 /// Appended to the names of a binary file section; not part of the path.
 pub const BINARY_FILE_SUFFIX: &str = " (binary file)";
@@ -32,12 +31,11 @@ impl StateMachine<'_> {
                 return Ok(true);
             }
 
+            // The names were relativized where they were taken from the diff line.
             if self.minus_file != "/dev/null" {
-                relativize_path_maybe(&mut self.minus_file, self.config);
                 self.minus_file.push_str(BINARY_FILE_SUFFIX);
             }
             if self.plus_file != "/dev/null" {
-                relativize_path_maybe(&mut self.plus_file, self.config);
                 self.plus_file.push_str(BINARY_FILE_SUFFIX);
             }
             return Ok(true);
